@@ -66,6 +66,13 @@ class PassW(KDWrapper):
     pass
 
 
+class PlainCallable:
+    """a view transform that is not a KDTransform (like a torchvision transform or a function)"""
+
+    def __call__(self, x):
+        return x * 0.5
+
+
 def build_stack(w):
     import kappadata.wrappers as W
     kind = w["kind"]
@@ -80,9 +87,13 @@ def build_stack(w):
         cls = {"x": W.XTransformWrapper, "y": W.YTransformWrapper, "source": W.SourceTransformWrapper, "target": W.TargetTransformWrapper}[kind]
         ds = cls(base, transform=treg.build(w["t"]), seed=seed)
     elif kind == "multiview":
-        ds = W.KDMultiViewWrapper(base, configs=[(c["n_views"], treg.build(c["t"])) for c in w["configs"]], seed=seed)
+        ds = W.KDMultiViewWrapper(base, configs=[(c["n_views"], PlainCallable() if c["t"] == "plain" else treg.build(c["t"]))
+                                                 for c in w["configs"]], seed=seed)
     elif kind == "mix":
         ds = W.KDMixWrapper(base, mixup_p=w["p"], mixup_alpha=w["alpha"], seed=seed)
+    elif kind == "x_over_mix":
+        inner = W.KDMixWrapper(base, mixup_p=w["p"], mixup_alpha=w["alpha"], seed=seed)
+        ds = W.XTransformWrapper(inner, transform=treg.build(w["t"]), seed=None if seed is None else seed + 3)
     elif kind == "semseg":
         import kappadata.transforms as T
         ts = []
@@ -135,7 +146,7 @@ def check(spec):
     n = len(ds)
     it = item_of(w)
     modes = {"it": it}
-    if w["kind"] == "mix":
+    if w["kind"] in ("mix", "x_over_mix"):
         modes = {"it": "x", "class": "class", "xc": "x class", "cx": "class x"}
     elif w["kind"] == "semseg":
         modes = {"it": "x", "seg": "semseg", "xs": "x semseg", "sx": "semseg x"}
@@ -217,7 +228,7 @@ def check(spec):
                 raise
             flags.add("loader")
             flags.add(f"workers={nw}")
-    if w["kind"] in ("mix", "semseg"):
+    if w["kind"] in ("mix", "semseg", "x_over_mix"):
         # every request form (item alone, jointly, either order) must describe the same sample
         for i in range(n):
             for mk in modes:
@@ -226,6 +237,8 @@ def check(spec):
     repeated = len(set(seq)) < len(seq)
     nonmono = any(b < a for a, b in zip(seq, seq[1:]))
     composite = w["kind"] not in ("x", "y", "source", "target") or treg.is_composite(w["t"])
+    if w["kind"] == "multiview":
+        composite = True
     nt = repeated and nonmono and bool(flags & {"perturb", "rebuild", "loader"})
     return Case(nt, [w["kind"], w.get("pos", "top")] + sorted(flags) + (["composite"] if composite else []), max(1, evals))
 
@@ -269,12 +282,15 @@ SEMSEG_T = st.lists(st.sampled_from([
     {"k": "KDSemsegRandomCrop", "a": {"size": [4, 5]}},
     {"k": "KDRandomHorizontalFlip", "a": {"p": 0.0}},
     {"k": "KDAdditiveUniformNoise", "a": {"magnitude": 0.5, "magnitude_std": 0.0}},
+    # image-only containers
+    {"k": "compose", "m": [{"k": "KDAdditiveUniformNoise", "a": {"magnitude": 0.5, "magnitude_std": 0.0}}]},
+    {"k": "random_apply", "p": 0.5, "t": {"k": "KDAdditiveUniformNoise", "a": {"magnitude": 0.5, "magnitude_std": 0.0}}},
 ]), min_size=1, max_size=4)
 
 
 @st.composite
 def wrapper_spec(draw, tier):
-    kind = draw(st.sampled_from(["x", "x", "x", "y", "source", "target", "multiview", "multiview", "mix", "mix", "semseg", "semseg",
+    kind = draw(st.sampled_from(["x", "x", "x", "y", "source", "target", "multiview", "multiview", "mix", "mix", "semseg", "semseg", "x_over_mix",
                                  "minaug_x", "minaug_mv"] + (["byol", "mugs"] if tier == "thorough" else [])))
     w = {"kind": kind, "n": draw(st.integers(2, 7)), "key": draw(st.integers(0, 99)), "seed": draw(st.integers(0, 2 ** 31)),
          "pos": draw(st.sampled_from(["top", "under_pass", "over_subset", "under_subset"]))}
@@ -282,9 +298,16 @@ def wrapper_spec(draw, tier):
         w["t"] = draw(NOSCHED)
         w["fam"] = treg.family(w["t"])
     elif kind == "multiview":
-        cfgs = [{"n_views": draw(st.integers(1, 3)), "t": draw(NOSCHED)} for _ in range(draw(st.integers(1, 3)))]
+        cfgs = [{"n_views": draw(st.integers(1, 3)), "t": draw(st.one_of(NOSCHED, NOSCHED, st.just("plain")))}
+                for _ in range(draw(st.integers(1, 3)))]
         w["configs"] = cfgs
-        w["fam"] = "img3" if any(treg.family(c["t"]) == "img3" for c in cfgs) else "img"
+        w["fam"] = "img3" if any(c["t"] != "plain" and treg.family(c["t"]) == "img3" for c in cfgs) else "img"
+    elif kind == "x_over_mix":
+        w["pos"] = draw(st.sampled_from(["top", "over_subset"]))
+        w["p"] = draw(st.sampled_from([1.0, 0.5]))
+        w["alpha"] = 1.0
+        w["t"] = draw(treg.leaf_spec(draw(st.sampled_from(["KDAdditiveUniformNoise", "KDRandomHorizontalFlip", "KDAdditiveGaussianNoise"]))))
+        w["fam"] = "img3"
     elif kind == "mix":
         w["pos"] = draw(st.sampled_from(["top", "over_subset"]))  # fused items must be implemented by the outermost wrapper
         w["p"] = draw(st.sampled_from([1.0, 0.5]))
